@@ -5,10 +5,17 @@
 #  - instrumented build (C06 C13 C14; C20 with -race): tools/simbuild.sh copies
 #    /repo's working tree to .cache/inst/src, instruments the copy, builds.
 # exit: 0 held, 1 violation, 2 harness/build trouble.
+# Developer knobs (never set by the registered commands): VERIF_REPO (another
+# checkout instead of /repo), VERIF_CACHE (build cache directory), VERIF_OUT
+# (where evidence/ and replays/ are written) let trials of seeded changes run
+# on scratch worktrees, several at a time, without touching /repo or evidence/.
 cd "$(dirname "$0")" || exit 2
 export GOFLAGS=-mod=mod GOPROXY=off GOSUMDB=off GOTOOLCHAIN=local
 export VERIF_ROOT="$(pwd)"
-mkdir -p .cache/bin evidence
+REPO=${VERIF_REPO:-/repo}
+CACHE=${VERIF_CACHE:-$VERIF_ROOT/.cache}
+export VERIF_CACHE="$CACHE"
+mkdir -p "$CACHE/bin" "${VERIF_OUT:-$VERIF_ROOT}/evidence"
 prop="$1"
 if [ "$1" = "replay" ]; then
   prop=$(grep -o '"property": *"C[0-9]*"' "$2" | head -1 | grep -o 'C[0-9]*')
@@ -16,17 +23,22 @@ fi
 case "$prop" in
   C06|C13|C14)
     tools/simbuild.sh || exit 2
-    bin=.cache/bin/verif-inst ;;
+    bin=$CACHE/bin/verif-inst ;;
   C20)
     tools/simbuild.sh race || exit 2
-    bin=.cache/bin/verif-inst-race ;;
+    bin=$CACHE/bin/verif-inst-race ;;
   *)
-    if ! go build -o .cache/bin/verif ./cmd/verif 2> .cache/build.err; then
+    modflag=""
+    if [ "$REPO" != "/repo" ]; then
+      sed "s#=> /repo#=> $REPO#" go.mod > "$CACHE/go.plain.mod"; cp -f go.sum "$CACHE/go.plain.sum"
+      modflag="-modfile=$CACHE/go.plain.mod"
+    fi
+    if ! go build $modflag -o "$CACHE/bin/verif" ./cmd/verif 2> "$CACHE/build.err"; then
       echo "harness: build failed (exit 2, not a violation)" >&2
-      cat .cache/build.err >&2
+      cat "$CACHE/build.err" >&2
       exit 2
     fi
-    bin=.cache/bin/verif ;;
+    bin=$CACHE/bin/verif ;;
 esac
 if [ "$1" = "replay" ]; then
   exec $bin replay "$2"
